@@ -133,3 +133,85 @@ func vfC19Filtered(c int) {
 	vfReach("filtered")
 	vfAssert("tree-unchanged-by-filtered-queries", vfUnchanged(m.q, before))
 }
+
+// ---- large results: a result handed to one caller is never touched by a later query ----
+// A 9x9 grid tree (81 points); queries with 0, a few, 72 and 81 matches, every ordered pair of
+// them, nil and caller buffers, every query kind. The first query's result must be unchanged after
+// the second query, and the second query must not write to memory it does not own (sync.Pool is
+// modelled as a LIFO: an object obtained from Get is owned until Put).
+
+type vfGridPt struct{ p orb.Point }
+
+func (g *vfGridPt) Point() orb.Point { return g.p }
+
+func vfGridTree() (*Quadtree, []orb.Pointer) {
+	q := New(orb.Bound{Min: orb.Point{0, 0}, Max: orb.Point{8, 8}})
+	var all []orb.Pointer
+	for x := 0; x <= 8; x++ {
+		for y := 0; y <= 8; y++ {
+			p := &vfGridPt{orb.Point{float64(x), float64(y)}}
+			if q.Add(p) == nil {
+				all = append(all, p)
+			}
+		}
+	}
+	return q, all
+}
+
+var vfGridBoxes = []orb.Bound{
+	{Min: orb.Point{0, 0}, Max: orb.Point{8, 8}},         // 81
+	{Min: orb.Point{0, 0}, Max: orb.Point{7, 8}},         // 72
+	{Min: orb.Point{1, 0}, Max: orb.Point{8, 8}},         // 72, other side
+	{Min: orb.Point{2.5, 2.5}, Max: orb.Point{4.5, 3.5}}, // 2
+	{Min: orb.Point{8.5, 8.5}, Max: orb.Point{9, 9}},     // 0
+}
+
+func vfC19Grid_N(tier int) int { return len(vfGridBoxes) * len(vfGridBoxes) * 3 }
+func vfC19Grid_Label(c int) string {
+	k := c % 3
+	c /= 3
+	return "box#" + strconv.Itoa(c/len(vfGridBoxes)) + " then box#" + strconv.Itoa(c%len(vfGridBoxes)) + " second=" + []string{"InBound(nil)", "InBoundMatching(nil)", "KNearest(nil, 70)"}[k]
+}
+
+func vfC19Grid(c int) {
+	k := c % 3
+	c /= 3
+	q, _ := vfGridTree()
+	b1, b2 := vfGridBoxes[c/len(vfGridBoxes)], vfGridBoxes[c%len(vfGridBoxes)]
+	before := vfSnapshot(q)
+	vfWatchBegin()
+	r1 := q.InBound(nil, b1)
+	vfWatchEnd()
+	vfReach("grid")
+	saved := append([]orb.Pointer{}, r1...)
+	vfWatchBegin()
+	var r2 []orb.Pointer
+	switch k {
+	case 0:
+		r2 = q.InBound(nil, b2)
+	case 1:
+		r2 = q.InBoundMatching(nil, b2, func(p orb.Pointer) bool { return true })
+	default:
+		r2 = q.KNearest(nil, b2.Min, 70)
+	}
+	vfWatchEnd()
+	vfAssert("first-result-untouched-by-second-query", vfSameResult(saved, r1))
+	vfAssert("tree-unchanged-by-large-queries", vfUnchanged(q, before))
+	// the second result is what the same query gives on its own
+	q2, _ := vfGridTree()
+	var alone []orb.Pointer
+	switch k {
+	case 0:
+		alone = q2.InBound(nil, b2)
+	case 1:
+		alone = q2.InBoundMatching(nil, b2, func(p orb.Pointer) bool { return true })
+	default:
+		alone = q2.KNearest(nil, b2.Min, 70)
+	}
+	vfAssert("second-result-size-as-alone", len(alone) == len(r2))
+	for i := range r2 {
+		if i < len(alone) {
+			vfAssert("second-result-as-alone", r2[i].Point() == alone[i].Point())
+		}
+	}
+}
